@@ -27,7 +27,7 @@ LEVEL_TEXT = ('Each law (group axioms of Orientation, linear + isometric action 
 LEVEL_NOTE = ('No claim beyond the instances evaluated. The reference for get_next_position and the heading tables are the '
               'harness\' own (refmodel.py).')
 SHARDS = {'quick': 2, 'thorough': 8}
-BUDGET_S = {'quick': 60, 'thorough': 600}
+BUDGET_S = {'quick': 300, 'thorough': 2400}
 RULE = ('case = one instance of one law. non-trivial = involves a non-identity orientation or a non-zero position; distinct '
         'by (law, operands).')
 ASSUMPTIONS = ['laws as listed in DESIGN.md §2 C18']
